@@ -4,6 +4,7 @@ import (
 	"context"
 	"errors"
 	"fmt"
+	"math"
 	"runtime"
 	"sort"
 	"strings"
@@ -99,7 +100,11 @@ func faultDataset() Dataset {
 			if i == 1 {
 				to = faultStart + 12*faultStep
 			}
-			mk(map[string]string{"__name__": "m0", "a": a, "b": b}, faultStart-600_000, to, float64(i+1), i == 2)
+			ls := map[string]string{"__name__": "m0", "a": a, "b": b}
+			if i == 3 || i == 4 {
+				ls["Z"] = "q" // an upper-case label name sorts before __name__
+			}
+			mk(ls, faultStart-600_000, to, float64(i+1), i == 2)
 			i++
 		}
 	}
@@ -141,14 +146,97 @@ const faultSeqMax = 2600 // upper bound of addresses per (shape, window, procs) 
 
 func (p *faultProp) combos() int { return len(faultShapes) * 2 * 2 }
 
+func (p *faultProp) hostileCases() int {
+	if p.id != "C13" {
+		return 0
+	}
+	return len(hostileQueries()) * len(hostileDatasets) * 2
+}
+
 func (p *faultProp) NumCases(tier string) int {
 	if tier == "thorough" {
-		return p.combos() * len(p.kinds) * 400
+		return p.hostileCases() + p.combos()*len(p.kinds)*400
 	}
-	return p.combos() * len(p.kinds) * 30
+	return p.hostileCases() + p.combos()*len(p.kinds)*30
+}
+
+// hostile-parameter grid of C13 (no faults): extreme parameters on degenerate data must come back
+// as the query's error or value, never as a dead process.
+var hostileDatasets = []string{"full", "empty", "single-sample", "all-nan"}
+
+func hostileQueries() []string {
+	var qs []string
+	ks := []string{"0", "-1", "NaN", "Inf", "-Inf", "1e19", "0.5", "1.9", "100", "scalar(m1)", "scalar(nosuch)", "time() - time()", "-0"}
+	for _, op := range []string{"topk", "bottomk"} {
+		for _, k := range ks {
+			qs = append(qs, fmt.Sprintf("%s(%s, m0)", op, k), fmt.Sprintf("%s by (a) (%s, m0)", op, k), fmt.Sprintf("sum(%s(%s, m0))", op, k), fmt.Sprintf("%s(%s, rate(m0[1m]))", op, k))
+		}
+	}
+	phis := []string{"-1", "2", "NaN", "Inf", "-Inf", "0", "1", "0.5", "scalar(nosuch)", "scalar(m1)"}
+	for _, phi := range phis {
+		qs = append(qs, fmt.Sprintf("quantile(%s, m0)", phi), fmt.Sprintf("quantile by (a) (%s, m0)", phi), fmt.Sprintf("quantile without (b) (%s, -m0)", phi),
+			fmt.Sprintf("histogram_quantile(%s, h_bucket)", phi), fmt.Sprintf("histogram_quantile(%s, rate(h_bucket[1m]))", phi))
+	}
+	qs = append(qs, "clamp(m0, 5, 1)", "clamp(m0, NaN, 1)", "clamp_min(m0, NaN)", "clamp_max(m0, scalar(nosuch))", "m0 / 0", "m0 % 0", "0 / m0", "sqrt(-m0)", "ln(m0 - m0)",
+		"topk(1, m0) + on(a, b) topk(0, m0)", "stddev(m0 * Inf)", "avg(m0 * 1e308)", "sum(m0) / sum(nosuch)", "m0 @ 0", "m0 offset 100h", "rate(m0[1ms])",
+		"max_over_time(m0[1ms])", "nosuch", "sum(nosuch)", "-nosuch", "nosuch + nosuch", "histogram_quantile(0.5, nosuch)", "scalar(nosuch) + 1", "vector(NaN)", "topk(1, vector(NaN))",
+		"m0 + on(nosuch) group_left m1", "count(m0) by (nosuch)", "sum without (a, b, __name__) (m0)", "deriv(m0[15s])", "irate(m0[15s])", "changes(m0[1s])")
+	return qs
+}
+
+func hostileDataset(kind string) Dataset {
+	switch kind {
+	case "empty":
+		return Dataset{}
+	case "single-sample":
+		d := faultDataset()
+		for i := range d.Series {
+			if len(d.Series[i].Samples) > 40 {
+				d.Series[i].Samples = d.Series[i].Samples[40:41]
+			}
+		}
+		return d
+	case "all-nan":
+		d := faultDataset()
+		for i := range d.Series {
+			for k := range d.Series[i].Samples {
+				d.Series[i].Samples[k].V = math.NaN()
+			}
+		}
+		return d
+	}
+	return faultDataset()
+}
+
+func (p *faultProp) checkHostile(c Case) Outcome {
+	var o Outcome
+	ctx := context.Background()
+	eng := RunEngine(ctx, NewStore(c.Dataset, StoreOpts{}), c.Engine, c.Query, c.Window)
+	ref := RunReference(ctx, NewStore(c.Dataset, StoreOpts{}), c.Engine, c.Query, c.Window)
+	o.NonTrivial = !ref.CreateErr
+	o.Count("hostile_parameter_cases", 1)
+	if d := Compare(eng.Res, ref.Res); d != nil {
+		var tmp Outcome
+		if Excuse(c, eng.Res, ref.Res, d, &tmp) == "" && !usesAvoided(c.Query) {
+			o.Add("hostile:"+d.Rule, fmt.Sprintf("%s\n  engine:    %s\n  reference: %s", d.Detail, eng.Res, ref.Res))
+		}
+	}
+	p.bystander(Case{Dataset: faultDataset(), Engine: c.Engine}, &o)
+	return o
 }
 
 func (p *faultProp) Gen(seed uint64, tier string, i int) Case {
+	if h := p.hostileCases(); i < h {
+		qs := hostileQueries()
+		q := qs[i%len(qs)]
+		rest := i / len(qs)
+		dk := hostileDatasets[rest%len(hostileDatasets)]
+		instant := (rest/len(hostileDatasets))%2 == 1
+		return Case{Prop: p.id, Kind: "hostile", Seed: seed, Index: i, Query: q, Window: faultWindow(instant), Dataset: hostileDataset(dk),
+			Engine: EngineCfg{Opt: "none", Fallback: true, Procs: []int{4, 16}[i%2]}, Extra: map[string]any{"dataset": dk}}
+	} else {
+		i -= h
+	}
 	r := NewRng(seed, PropNum(p.id), uint64(i))
 	combo := i % p.combos()
 	slot := i / p.combos()
@@ -450,6 +538,9 @@ func (p *faultProp) Check(c Case) Outcome {
 	var o Outcome
 	if c.Kind == "cancel-race" {
 		return p.checkCancelRace(c)
+	}
+	if c.Kind == "hostile" {
+		return p.checkHostile(c)
 	}
 	cal := calibrate(c)
 	if !cal.ExecReturn || cal.Out.Res.Err != nil {
